@@ -485,7 +485,7 @@ package bus
 //@ func (o *signalHandler) UpdateProperty(id uint32, sig string, data []byte) (err error)
 //@   tags C14
 //@   requires !o.signalsMutex.lockw && o.signalsMutex.lockr == 0
-//@   modifies everything, o.propevents, o.proplast
+//@   modifies everything, o.propevents, o.proplast, o.evattempts, o.evmatch
 //@   ensures[C14] o.propevents == old(o.propevents) + 1 && o.proplast == id && !o.signalsMutex.lockw && o.signalsMutex.lockr == 0
 //@   ghost_at_return o.propevents := old(o.propevents) + 1
 //@   ghost_at_return o.proplast := id
@@ -514,7 +514,7 @@ package bus
 //@   tags C14 C12
 //@   requires name != nil && newValue != nil && o.signalHandler != nil
 //@   requires !o.propertiesMutex.lockw && o.propertiesMutex.lockr == 0 && !o.signalHandler.signalsMutex.lockw && o.signalHandler.signalsMutex.lockr == 0
-//@   modifies everything
+//@   modifies everything, o.validated, o.signalHandler.propevents, o.signalHandler.proplast, o.signalHandler.evattempts, o.signalHandler.evmatch
 //@   ensures[C14] o.validated <= old(o.validated) + 1
 //@   ensures[C14] err == nil ==> o.validated == old(o.validated) + 1 && o.signalHandler.propevents == old(o.signalHandler.propevents) + 1
 //@   ensures[C14] o.signalHandler.propevents == old(o.signalHandler.propevents) || (o.signalHandler.propevents == old(o.signalHandler.propevents) + 1 && o.validated == old(o.validated) + 1)
